@@ -29,10 +29,9 @@ impl NewStreamData {
         }
     }
     fn sufficient(&self) -> bool {
-        if self.num_bytes_read == 4 && (127 & self.bytes_so_far[0]) != 17 {
-            return true;
-        }
-        self.num_bytes_read == 5
+        // always decide on the same number of header bytes, however the input happens to be
+        // sliced (a stream shorter than this is necessarily an empty one)
+        usize::from(self.num_bytes_read) == NUM_STREAM_HEADER_BYTES
     }
 }
 
@@ -358,6 +357,10 @@ impl BroCatli {
                     ((usize::from(self.last_byte_bit_offset) + varlen_offset - window_offset) + 7)
                         / 8;
                 let whole_byte_source = (varlen_offset + 7) / 8;
+                if whole_byte_source > usize::from(new_stream_pending.num_bytes_read) {
+                    // the first metablock header does not fit in the header bytes that get realigned
+                    return BroCatliResult::BrotliFileNotCraftedForConcatenation;
+                }
                 let num_whole_bytes_to_copy =
                     usize::from(new_stream_pending.num_bytes_read) - whole_byte_source;
                 for aligned_index in 0..num_whole_bytes_to_copy {
@@ -428,8 +431,12 @@ impl BroCatli {
         if let Some(mut new_stream_pending) = self.new_stream_pending {
             let flush_result = self.flush_previous_stream(out_bytes, out_offset);
             if let BroCatliResult::Success = flush_result {
-                if usize::from(new_stream_pending.num_bytes_read)
-                    < new_stream_pending.bytes_so_far.len()
+                // once the header has been realigned, bytes_so_far holds output that is still to
+                // be written rather than lookahead: only collect input before that point
+                let collecting = new_stream_pending.num_bytes_written.is_none();
+                if collecting
+                    && usize::from(new_stream_pending.num_bytes_read)
+                        < new_stream_pending.bytes_so_far.len()
                 {
                     {
                         let dst = &mut new_stream_pending.bytes_so_far
@@ -442,7 +449,7 @@ impl BroCatli {
                     }
                     self.new_stream_pending = Some(new_stream_pending); // write back changes
                 }
-                if !new_stream_pending.sufficient() {
+                if collecting && !new_stream_pending.sufficient() {
                     return BroCatliResult::NeedsMoreInput;
                 }
                 if out_bytes.len() == *out_offset {
